@@ -763,8 +763,8 @@ def iterlookupjoin(left, right, lkey, rkey, missing=None, lprefix=None,
     rkind = asindices(rhdr, rkey)
 
     # construct functions to extract key values from both tables
-    lgetk = operator.itemgetter(*lkind)
-    rgetk = operator.itemgetter(*rkind)
+    lgetk = comparable_itemgetter(*lkind)
+    rgetk = comparable_itemgetter(*rkind)
 
     # determine indices of non-key fields in the right table
     # (in the output, we only include key fields from the left table - we
@@ -806,11 +806,16 @@ def iterlookupjoin(left, right, lkey, rkey, missing=None, lprefix=None,
     lrowgrp = []
 
     # loop until *either* of the iterators is exhausted
-    lkval, rkval = None, None  # initialise here to handle empty tables
+    # initialise here to handle empty tables
+    lkval, rkval = Comparable(None), Comparable(None)
+    # keep track of a left row group picked off but not yet dealt with, N.B.,
+    # cannot be worked out from the key values because None is a valid key
+    lpending = False
     try:
 
         # pick off initial row groups
         lkval, lrowgrp = next(lgit)
+        lpending = True
         rkval, rrowgrp = next(rgit)
 
         while True:
@@ -818,7 +823,9 @@ def iterlookupjoin(left, right, lkey, rkey, missing=None, lprefix=None,
                 for row in joinrows(lrowgrp, None):
                     yield tuple(row)
                 # advance left
+                lpending = False
                 lkval, lrowgrp = next(lgit)
+                lpending = True
             elif lkval > rkval:
                 # advance right
                 rkval, rrowgrp = next(rgit)
@@ -826,14 +833,16 @@ def iterlookupjoin(left, right, lkey, rkey, missing=None, lprefix=None,
                 for row in joinrows(lrowgrp, rrowgrp):
                     yield tuple(row)
                 # advance both
+                lpending = False
                 lkval, lrowgrp = next(lgit)
+                lpending = True
                 rkval, rrowgrp = next(rgit)
 
     except StopIteration:
         pass
 
     # make sure any left rows remaining are yielded
-    if lkval > rkval:
+    if lpending:
         # yield anything that got left hanging
         for row in joinrows(lrowgrp, None):
             yield tuple(row)
